@@ -34,6 +34,8 @@ func main() {
 		os.Exit(cmdReplay(os.Args[2:]))
 	case "list":
 		os.Exit(cmdList())
+	case "witnesses":
+		os.Exit(cmdWitnesses())
 	default:
 		usage()
 	}
@@ -767,4 +769,56 @@ func runBounded(eng *Engine, id string, opts checkOpts, replayDir string) []map[
 		out = append(out, b)
 	}
 	return out
+}
+
+// cmdWitnesses runs every witness builder against the current tree. A witness is bound to
+// obligations; on a tree where those obligations hold it must stay quiet, unless the obligation
+// is a recorded known finding. Used by regress.sh to keep witnesses from confirming false alarms.
+func cmdWitnesses() int {
+	files, _ := filepath.Glob(filepath.Join(verifDir(), "witness", "*", "*_test.go"))
+	sort.Strings(files)
+	known := loadFindings()
+	rc := 0
+	for _, f := range files {
+		data, err := os.ReadFile(f)
+		if err != nil {
+			continue
+		}
+		pkgName := filepath.Base(filepath.Dir(f))
+		pkgPath := map[string]string{"util": "github.com/0chain/common/core/util", "wmpt": "github.com/0chain/common/core/util/wmpt", "statecache": "github.com/0chain/common/core/statecache", "logging": "github.com/0chain/common/core/logging", "currency": "github.com/0chain/common/core/currency", "encryption": "github.com/0chain/common/core/encryption"}[pkgName]
+		if pkgPath == "" {
+			continue
+		}
+		boundToFinding := false
+		for _, ln := range strings.Split(string(data), "\n") {
+			ln = strings.TrimSpace(ln)
+			if !strings.HasPrefix(ln, "// obligation:") {
+				continue
+			}
+			parts := strings.SplitN(strings.TrimSpace(strings.TrimPrefix(ln, "// obligation:")), "=>", 2)
+			for _, k := range known {
+				if k.kind == "finding" && len(parts) == 2 && strings.HasPrefix(k.obl, strings.TrimSpace(parts[0])) {
+					boundToFinding = true
+				}
+			}
+		}
+		out, _ := runTestOverlay(filepath.Join(outDir(), "work", "witnesses"), pkgPath, string(data), "zz_gocv_witness_test.go", "^TestGocvWitness")
+		loud := ""
+		for _, ol := range strings.Split(out, "\n") {
+			if strings.Contains(ol, "GOCV-PANIC") || strings.Contains(ol, "GOCV-FAIL") || strings.Contains(ol, "DATA RACE") || strings.Contains(ol, "[build failed]") || strings.Contains(ol, "[setup failed]") {
+				loud = strings.TrimSpace(ol)
+				break
+			}
+		}
+		switch {
+		case loud == "":
+			fmt.Printf("witness %s/%s: quiet\n", pkgName, filepath.Base(f))
+		case boundToFinding:
+			fmt.Printf("witness %s/%s: reproduces a recorded known finding: %s\n", pkgName, filepath.Base(f), loud)
+		default:
+			fmt.Printf("witness %s/%s: LOUD on this tree: %s\n", pkgName, filepath.Base(f), loud)
+			rc = 1
+		}
+	}
+	return rc
 }
